@@ -372,7 +372,17 @@ fn run(plan: &Plan, ctx: &mut Ctx) -> R {
                 _ => 2,
             };
             let product: u64 = (0..nops).map(|j| tsz_of[resolve(op.a[j], caller, &own, n)]).fold(1u64, |a, b| a.saturating_mul(b.max(1)));
-            if (0..nops).any(|j| big[resolve(op.a[j], caller, &own, n)]) || (!compress && product > 40_000) || product > 250_000 {
+            // uncompressed diagrams: operations built from several applies work on intermediate results as large as
+            // the product of their operands (ite = two conjunctions and a disjunction of them; xor/iff are ites;
+            // exists disjoins two conditionings), and every sort compares shared diagrams as trees
+            let sz = |j: usize| tsz_of[resolve(op.a[j], caller, &own, n)].max(1);
+            let work: u64 = match kind {
+                K_ITE => sz(0).saturating_mul(sz(1)).saturating_mul(sz(0).saturating_mul(sz(2))),
+                K_XOR | K_IFF => product.saturating_mul(product),
+                K_EXISTS => sz(0).saturating_mul(sz(0)),
+                _ => product,
+            };
+            if (0..nops).any(|j| big[resolve(op.a[j], caller, &own, n)]) || (!compress && work > 40_000) || product > 250_000 {
                 kind = K_VAR;
                 r.kind = K_VAR;
                 ctx.count("operand-too-big-degraded-to-var", 1);
